@@ -268,9 +268,124 @@ def rule_4(ctx):
     ctx.floor(2, 'address resolution facts')
 
 
+import re as _re
+
+_CYCLE_WORD = _re.compile(r'cycl|circular', _re.I)
+
+
+def _cycle_scenarios(full=True):
+    """(label, cells, start) - cycles closed in every operand position, next to every kind of partner value, through
+    function arguments and through ranges."""
+    rows = []
+    partners = [('a number', 1), ('a zero', 0), ('an error value', '=1/0'), ('#N/A', '=NA()'), ('a text', 'abc'), ('a blank', None),
+                ('FALSE', '=1>2')]
+    for plabel, pval in partners:
+        for op in ('+', '&', '>=', '*'):
+            if not full and op != '+' and plabel != 'an error value':
+                continue
+            for form, flabel in ((f'=B1{op}A1', 'right operand'), (f'=A1{op}B1', 'left operand')):
+                cells = {'A1': form}
+                if pval is not None:
+                    cells['B1'] = pval
+                rows.append((f'{form} with B1 {plabel}: the cycle closes in the {flabel}', cells, 'A1'))
+    rows += [
+        ('=-A1', {'A1': '=-A1'}, 'A1'), ('=A1', {'A1': '=A1'}, 'A1'), ('=(A1)%', {'A1': '=(A1)%'}, 'A1'),
+        ('=SUM(B1,A1) with B1 an error', {'A1': '=SUM(B1,A1)', 'B1': '=1/0'}, 'A1'),
+        ('=SUM(A1,B1)', {'A1': '=SUM(A1,B1)', 'B1': 2}, 'A1'),
+        ('=ABS(A1)', {'A1': '=ABS(A1)'}, 'A1'),
+        ('A1 -> B1 -> C1 -> A1', {'A1': '=B1+1', 'B1': '=C1*2', 'C1': '=A1-1'}, 'A1'),
+        ('A1 -> B1 -> C1 -> A1 entered at C1', {'A1': '=B1+1', 'B1': '=C1*2', 'C1': '=A1-1'}, 'C1'),
+        ('A2 = C1&A3, C1 = NA(), A3 = A2', {'A2': '=C1&A3', 'C1': '=NA()', 'A3': '=A2'}, 'A2'),
+        ('cycle closed through a range', {'A1': '=SUM(B1:B3)', 'B1': 1, 'B2': '=A1+1', 'B3': 3}, 'A1'),
+        ('cycle closed through a range behind an error', {'A1': '=D1-SUM(B1:B3)', 'B1': 1, 'B2': '=A1', 'B3': 3, 'D1': '=SQRT(-1)'}, 'A1'),
+        ('cycle through a range entered from a member', {'A1': '=SUM(B1:B3)', 'B1': 1, 'B2': '=A1+1', 'B3': 3}, 'B2'),
+        ('cycle behind a healthy prefix', {'Z1': '=Y1+1', 'Y1': '=A1*2', 'A1': '=B1+1', 'B1': '=A1+1'}, 'Z1'),
+        ('self reference inside a range', {'A2': '=SUM(A1:A3)', 'A1': 1, 'A3': 2}, 'A2'),
+    ]
+    return rows
+
+
+def _wb_outcome(ctx, cells, start):
+    """('value', v) | ('raise', class, message, formula evaluations) | ('unbounded', why)"""
+    from . import workbook as W
+    from . import values as V
+    from xlsa.consteval import MsgRef, Ref
+    wb = W.Workbook(ctx, cells)
+    try:
+        out = wb.evaluate('Sheet1!' + start)
+    except Unmodelled as exc:
+        if 'inlining deeper than' in str(exc) or 'budget exceeded' in str(exc):
+            return ('unbounded', str(exc)[:100]), wb
+        raise
+    n = wb.calls('evaluator', 'evaluate')
+    if out.end == 'raise':
+        cls = out.value.ref.rpartition(':')[2] if isinstance(out.value, Ref) else repr(out.value)
+        return ('raise', cls, out.value.message if isinstance(out.value, MsgRef) else '', n), wb
+    return ('value', V.norm(out.value), n), wb
+
+
+def rule_5(ctx):
+    """Whole witness workbooks - compiled by read_and_parse_dict, evaluated by Evaluator.evaluate, node classes and registered
+    operator functions as written: every cycle (closed in either operand, next to numbers, zeros, errors, texts, blanks, through
+    function arguments and ranges, entered anywhere) ends in an exception whose text reports the cycle, after each formula was
+    entered at most once; diamonds over zero / blank / FALSE / empty-text precedents evaluate; a doubling chain costs one
+    evaluation per cell whatever the value at its end; the text of a failure report grows additively with the chain."""
+    ev_fn = ctx.mod('evaluator').func('Evaluator.evaluate')
+    n = 0
+    for label, cells, start in _cycle_scenarios(full=ctx.tier != 'quick'):
+        res, wb = _wb_outcome(ctx, cells, start)
+        n += 1
+        formulas = sum(1 for v in cells.values() if isinstance(v, str) and v.startswith('='))
+        ok = res[0] == 'raise' and bool(_CYCLE_WORD.search(res[1] + ' ' + res[2])) and res[3] <= 3 * len(cells) + 6
+        ctx.expect(ok, ev_fn, f'cycle reported: {label}',
+                   f'evaluating {start} of {cells} ends in {res[:3]!r}: a cell that depends on itself must end in an exception that reports the '
+                   f'cycle, promptly ({formulas} formulas in the model)')
+    # acyclic sharing over falsy precedents
+    for plabel, pval in (('5', 5), ('0', 0), ('0.0', 0.0), ('a blank', None), ('FALSE', '=1>2'), ('an empty text', '=""'), ('#N/A', '=NA()')):
+        cells = {'D1': '=B1+C1+B1', 'B1': '=A1*2', 'C1': '=A1+1', 'E1': '=SUM(B1:C1,B1,B1:C1)'}
+        if pval is not None:
+            cells['A1'] = pval
+        for start in ('D1', 'E1'):
+            res, wb = _wb_outcome(ctx, cells, start)
+            n += 1
+            ctx.expect(res[0] == 'value' and res[2] <= 12, ev_fn, f'no false cycle: diamond/repeated references to {start} over A1 = {plabel}',
+                       f'{start} of {cells} ends in {res!r}: shared precedents and repeated references are not cycles and are evaluated once each')
+    # doubling chains: one evaluation per cell whatever the end value, also when a failure is met last
+    depth = 9
+    for plabel, pval in (('1', 1), ('0', 0), ('a blank', None), ('FALSE', '=1>2'), ('an empty text', '=""'), ('an error value', '=1/0')):
+        for tail, tlabel in (('', 'value'), ('+NOSUCHFUNC(1)', 'unknown function met last'), ('+A1', 'cycle closed last')):
+            cells = {f'A{i}': f'=A{i + 1}+A{i + 1}' for i in range(1, depth)}
+            cells['A1'] = cells['A1'] + tail
+            if pval is not None:
+                cells[f'A{depth}'] = pval
+            res, wb = _wb_outcome(ctx, cells, 'A1')
+            n += 1
+            count = res[-1] if res[0] != 'unbounded' else None
+            ok = count is not None and count <= depth * depth + 10 and (res[0] == 'raise') == bool(tail)
+            if ok and tail == '+A1':
+                ok = bool(_CYCLE_WORD.search(res[1] + ' ' + res[2]))
+            ctx.expect(ok, ev_fn, f'doubling chain over {plabel}, {tlabel}',
+                       f'A1 = A2+A2{tail}, A2 = A3+A3, ... A{depth} = {plabel}: {res[0]} after {count} cell evaluations (budget {depth * depth + 10}); '
+                       'every cell is evaluated once per evaluation, whatever its value - a value that is zero, blank, FALSE or empty is a value')
+    # message growth along a failing chain
+    sizes = []
+    for depth in (4, 8, 12):
+        cells = {f'A{i}': f'=A{i + 1}+1' for i in range(1, depth)}
+        cells[f'A{depth}'] = '=NOSUCHFUNC("a\\b""c")'
+        res, wb = _wb_outcome(ctx, cells, 'A1')
+        sizes.append(len(res[2]) if res[0] == 'raise' else None)
+    n += 1
+    ok = all(isinstance(x, int) for x in sizes) and (sizes[2] - sizes[1]) <= 1.5 * (sizes[1] - sizes[0]) + 64
+    ctx.expect(ok, ev_fn, 'failure report grows additively with the chain',
+               f'the text of the failure report of a chain of 4 / 8 / 12 cells has {sizes} characters: each level may add its own line, it must not '
+               'multiply what it received (repr() of the caught exception doubles escapes at every level)')
+    ctx.floor(55, 'workbook scenarios')
+
+
 RULES = [
     ('C06.1', 'the cycle guard sees its ancestors (identity flow along the recursion)', rule_1),
     ('C06.2', 'stack discipline: insertions paired with removals on every exit', rule_2),
     ('C06.3', 'exception re-wrapping is additive (no repr of the caught exception)', rule_3),
     ('C06.4', 'guarded addresses are resolved per evaluation (shared with C03.3)', rule_4),
+    ('C06.5', 'whole witness workbooks: cycles reported in every position, no false cycles, one evaluation per cell, additive reports', rule_5),
 ]
